@@ -6,9 +6,11 @@ import (
 	"encoding/json"
 	"fmt"
 	"io"
+	"net/textproto"
 	"os"
 	"path/filepath"
 	"strings"
+	"sync"
 	"testing/fstest"
 	tt "text/template"
 
@@ -36,9 +38,10 @@ type c11Case struct {
 }
 
 var (
-	c11Shapes = []string{"single", "alternative", "body+attachment", "body+embed", "attachment-only", "two-preformatted-headers", "smime-single", "smime+attachment", "two-attachments-only"}
+	c11Shapes = []string{"single", "alternative", "body+attachment", "body+embed", "attachment-only", "two-preformatted-headers", "smime-single", "smime+attachment", "two-attachments-only", "body-writer+file-writer (switchable source fault)"}
 	c11Srcs   = []string{"reader", "readseeker", "file", "fs.FS", "text-template"}
-	c11Ops    = []string{"WriteTo", "Write", "NewReader", "UpdateReader", "WriteToFile", "WriteToTempFile", "Send", "WriteTo(sink fails at 0)", "WriteTo(sink fails mid-way)"}
+	c11Ops    = []string{"WriteTo", "Write", "NewReader", "UpdateReader", "WriteToFile", "WriteToTempFile", "Send", "WriteTo(sink fails at 0)", "WriteTo(sink fails mid-way)",
+		"WriteTo(while the content source fails)", "NewReader(while the content source fails)", "UpdateReader(while the content source fails)", "Send(while the content source fails)"}
 )
 
 func c11HasFile(shape int) bool {
@@ -49,6 +52,11 @@ func c11MapMatters(shape int) bool {
 }
 
 var c11FileContent = []byte("file content line one\nline two with bare LF\r\nbinary: \x00\x01\xfe\xff = . end\n")
+
+// c11Fault is the switchable source fault of shape 9.
+type c11Fault struct{ on bool }
+
+var c11Faults sync.Map // *mail.Msg -> *c11Fault
 
 func c11TmpDir() string {
 	d := filepath.Join(os.Getenv("VERIF_WORK"), fmt.Sprintf("c11-%d", os.Getpid()))
@@ -71,11 +79,30 @@ func c11Build(cfg c11Cfg, dir string) (*mail.Msg, error) {
 		}
 	}
 	shape := cfg.Shape
-	if shape != 4 && shape != 8 {
+	if shape != 4 && shape != 8 && shape != 9 {
 		m.SetBodyString(mail.TypeTextPlain, "plain body\r\nwith = and .dot\r\n")
 	}
 	if shape == 1 {
 		m.AddAlternativeString(mail.TypeTextHTML, "<p>html</p>\r\n")
+	}
+	if shape == 9 {
+		flt := &c11Fault{}
+		c11Faults.Store(m, flt)
+		m.SetBodyWriter(mail.TypeTextPlain, func(w io.Writer) (int64, error) {
+			if flt.on {
+				return 0, errProducer
+			}
+			n, err := w.Write([]byte("body from a writer function\r\nsecond line\r\n"))
+			return int64(n), err
+		})
+		m.SetAttachments([]*mail.File{{Name: "from-writer.bin", Header: textproto.MIMEHeader{}, Writer: func(w io.Writer) (int64, error) {
+			if flt.on {
+				n, _ := w.Write(c11FileContent[:10])
+				return int64(n), errProducer
+			}
+			n, err := w.Write(c11FileContent)
+			return int64(n), err
+		}}})
 	}
 	if shape == 5 {
 		m.SetGenHeaderPreformatted(mail.Header("X-Preformatted-One"), "first value")
@@ -231,6 +258,15 @@ func c11Exec(r *vf.Run, k c11Case, dir string) []finding {
 		var operr error
 		ok := true
 		ks := k.Ks[step]
+		srcFault := op >= 9
+		if srcFault {
+			if v, found := c11Faults.Load(m); found {
+				v.(*c11Fault).on = true
+			} else {
+				continue // this shape has no switchable source
+			}
+			op = map[int]int{9: 0, 10: 2, 11: 3, 12: 6}[op]
+		}
 		pan, pw := vf.Guard(func() {
 			mapseam.With(ks, func() {
 				switch op {
@@ -295,9 +331,20 @@ func c11Exec(r *vf.Run, k c11Case, dir string) []finding {
 				}
 			})
 		})
+		if srcFault {
+			if v, found := c11Faults.Load(m); found {
+				v.(*c11Fault).on = false
+			}
+		}
 		if pan {
-			add("panic/"+vf.PanicSite(pw), "op %d %s panicked: %s", step, c11Ops[op], firstLine(pw))
+			add("panic/"+vf.PanicSite(pw), "op %d %s panicked: %s", step, c11Ops[k.Ops[step]], firstLine(pw))
 			return out
+		}
+		if srcFault {
+			if operr == nil {
+				add("source-failure-not-reported/op="+c11Ops[k.Ops[step]], "%s: op %d (%s) succeeded although the content source failed", cfgCls, step, c11Ops[k.Ops[step]])
+			}
+			continue // a failed render has no output to compare
 		}
 		if !ok {
 			continue
@@ -323,7 +370,7 @@ func init() {
 	vf.Register(&vf.Check{
 		ID: "C11", Title: "rendering is repeatable and all output paths agree",
 		Run: func(r *vf.Run) {
-			r.SetRule("message shapes {single, alternative, body+attachment, body+embed, attachment-only, two attachments only, three preformatted headers, S/MIME single, S/MIME+attachment} × file source {reader, read-seeker, file, fs.FS, text template} × file encoding {base64, 8bit, QP} × ALL sequences of length 2..L over the 9 render operations {WriteTo, Write, NewReader, UpdateReader, WriteToFile, WriteToTempFile, Send (server commit log), WriteTo into a sink failing at 0, … failing mid-way} × map-iteration start 0..7 per operation (<=1 operation deviating from start 0; thorough <=2) through the runtime seam; Date, Message-ID and boundaries are generated by go-mail on first use; every successful output must equal the first; distinct by (configuration, operation sequence, map starts)")
+			r.SetRule("message shapes {single, alternative, body+attachment, body+embed, attachment-only, two attachments only, three preformatted headers, S/MIME single, S/MIME+attachment} × file source {reader, read-seeker, file, fs.FS, text template} × file encoding {base64, 8bit, QP} × ALL sequences of length 2..L over the 9 render operations {WriteTo, Write, NewReader, UpdateReader, WriteToFile, WriteToTempFile, Send (server commit log), WriteTo into a sink failing at 0, … failing mid-way, and WriteTo / NewReader / UpdateReader / Send while the content source (body or file writer function) fails} × map-iteration start 0..7 per operation (<=1 operation deviating from start 0; thorough <=2) through the runtime seam; Date, Message-ID and boundaries are generated by go-mail on first use; every successful output must equal the first; distinct by (configuration, operation sequence, map starts)")
 			r.Assume("map iteration order is owned through a runtime build-overlay seam (start offset 0..7 for maps of <= 8 entries)", "for S/MIME the per-render outer boundary and signature value are excluded: the signed entity and the remaining top-level fields are compared",
 				"Send output compares modulo the transport's final CRLF", "8bit file content with bare LF/CR compares modulo line-break canonicalisation across the Send path (the dot-writer canonicalises it; such content is illegal on the wire)")
 			if !mapseam.Enabled {
@@ -374,11 +421,20 @@ func init() {
 						if useful < 2 {
 							continue // fewer than two successful renders: nothing to compare
 						}
+						hasSrcOp := false
+						for _, o := range ops {
+							if o >= 9 {
+								hasSrcOp = true
+							}
+						}
+						if hasSrcOp && cfg.Shape != 9 {
+							continue // only shape 9 has a switchable content source
+						}
 						if !r.Thorough && L == 3 {
 							// quick: length-3 sequences over the five representative operations only
 							rep := true
 							for _, o := range ops {
-								if o != 0 && o != 2 && o != 5 && o != 6 && o != 8 {
+								if o != 0 && o != 2 && o != 3 && o != 6 && o != 8 && o != 11 {
 									rep = false
 								}
 							}
